@@ -36,6 +36,10 @@ PID = "C16"
 WORKERS = int(os.environ.get("VERIF_TLC_WORKERS", "16"))
 HEAP = os.environ.get("VERIF_TLC_HEAP", "8g")
 NPROC = int(os.environ.get("VERIF_PROCS", "16"))
+# the recursive operators of Links.tla (Reorder / Concat / SelectSeq over random shapes with 6 links and 6 components, the
+# Warshall closure) can exceed the default thread stack of the JVM (a StackOverflowError is a machinery failure, seen
+# with VERIF_SEED=2): every TLC run gets a 64 MB stack (tlc.py only removes JAVA_TOOL_OPTIONS)
+JAVA_ENV = {"_JAVA_OPTIONS": "-Xss64m"}
 
 
 # =====================================================================================  part A: DirectedGraph
@@ -152,7 +156,7 @@ class Token:
 
 
 GEN.Token = Token
-from typing import Any  # noqa: E402
+from typing import Any, List, Optional  # noqa: E402
 
 GEN.Any = Any
 
@@ -165,12 +169,14 @@ def dotted(path) -> str:
     return ".".join(path)
 
 
-def gen_class(path, params, children, zid):
+def gen_class(path, params, children, zid, base=None):
     """a class for the object at `path`: link-target parameters (Any), class-typed parameters for nested objects,
     and z (its default identifies the spec of this object when an un-instantiated Namespace is passed around)."""
     cn = cname(path)
     sig = ["self"] + [f"{name}: {ccn}" for name, ccn in children] + [f"{p}: Any = None" for p in params] + [f"z: int = {zid}"]
-    src = f"class {cn}:\n    def __init__({', '.join(sig)}):\n"
+    src = f"class {cn}{'(' + base + ')' if base else ''}:\n    def __init__({', '.join(sig)}):\n"
+    for name, _ccn in children:  # (round 4) the object keeps what it was given: sources like "m.enc" / "m.enc.u" name attributes
+        src += f"        self.{name} = {name}\n"
     src += "        SERIAL[0] += 1; self._serial = SERIAL[0]\n"
     src += f"        self.u = Token({tuple(path)!r}, 'u', self._serial); self.v = Token({tuple(path)!r}, 'v', self._serial)\n"
     src += f"        LOG.append(('new', {tuple(path)!r}, self, {{" + ", ".join(f"{p!r}: {p}" for p in params) + "}))\n"
@@ -178,6 +184,29 @@ def gen_class(path, params, children, zid):
     cls = GEN.__dict__[cn]
     cls.__module__ = "verif_links_gen"
     return cls
+
+
+def comp_dests(shape):
+    return [d["dest"] for d in shape["decl"]] + [d["dest"] + [c] for d in shape["decl"] if d["kind"] == "group" for c in d["cparams"]]
+
+
+def source_key(shape, src) -> str:
+    """the key link_arguments is given for a source: a component, an attribute of it, or (round 4) an object nested
+    inside a class argument / an attribute of such an object: m.init_args.enc + u -> "m.enc.u"""
+    obj = src["obj"]
+    c = max((c for c in comp_dests(shape) if obj[: len(c)] == c), key=len)
+    names = [x for x in obj[len(c):] if x != "init_args"]
+    return dotted(c + names + ([src["attr"]] if src["attr"] else []))
+
+
+def list_dests(shape):
+    return [d["dest"] for d in shape["decl"] if d["kind"] == "list"]
+
+
+def feeds(shape, link, path) -> bool:
+    """the link writes into the constructor arguments of the object at `path` (every item of a List[Class] target)"""
+    t = list(link["tobj"])
+    return t == list(path) or (t in list_dests(shape) and list(path[:-1]) == t and len(path) == len(t) + 1)
 
 
 def target_key(shape, link) -> str:
@@ -202,10 +231,17 @@ def build_base(shape, variant=0):
     objs = sorted(shape["objs"], key=lambda p: (-len(p), p))  # inner classes first
     zid = {tuple(o): 100 + i for i, o in enumerate(sorted(shape["objs"]))}
     groups = {tuple(d["dest"]) for d in shape["decl"] if d["kind"] == "group"}
+    lists = {tuple(d["dest"]): d for d in shape["decl"] if d["kind"] == "list"}
+    opts = {tuple(d["dest"]) for d in shape["decl"] if d["kind"] == "opt"}
     params = {tuple(o): [] for o in objs}
+    for o in list(lists) + list(opts):
+        params[o] = []
     for l in shape["links"]:
         if l["tobj"] not in shape["plains"] and l["param"] not in params[tuple(l["tobj"])]:
             params[tuple(l["tobj"])].append(l["param"])
+    for o, d in lists.items():  # the items of a list receive what is linked into the list
+        for it in d["cparams"]:
+            params[o + (it,)] = params[o]
     children = {tuple(o): [] for o in objs}  # object -> [(param name, child path)]
     for o in objs:
         o = tuple(o)
@@ -221,7 +257,15 @@ def build_base(shape, variant=0):
     classes = {}
     for o in objs:
         o = tuple(o)
+        if o[:-1] in lists:
+            continue
         classes[o] = gen_class(o, params[o], [(n, cname(q)) for n, q in children[o]], zid[o])
+    for o, d in lists.items():  # List[C_l]: a base class and one subclass per item (so that the log names the item)
+        classes[o] = gen_class(o, params[o], [], 99)
+        for it in d["cparams"]:
+            classes[o + (it,)] = gen_class(o + (it,), params[o], [], zid[o + (it,)], base=cname(o))
+    for o in opts:
+        classes[o] = gen_class(o, params[o], [], 98)
 
     def spec(o):
         return {"class_path": f"verif_links_gen.{cname(o)}", "init_args": {n: spec(q) for n, q in children[o]}}
@@ -236,6 +280,13 @@ def build_base(shape, variant=0):
             p.add_class_arguments(classes[o], dotted(o))
             for name, q in children[o]:
                 argv.append(f"--{dotted(q)}={json.dumps(spec(q))}")
+        elif d["kind"] == "list":
+            p.add_argument("--" + dotted(o), type=List[classes[o]])
+            argv.append(f"--{dotted(o)}={json.dumps([{'class_path': 'verif_links_gen.' + cname(o + (it,))} for it in d['cparams']])}")
+        elif d["kind"] == "opt":  # an Optional class argument that stays None
+            p.add_argument("--" + dotted(o), type=Optional[classes[o]], default=None)
+            if (n + variant) % 2 == 0:
+                argv.append(f"--{dotted(o)}=null")
         else:
             if (n + variant) % 2 == 0:
                 p.add_subclass_arguments(classes[o], dotted(o))
@@ -246,7 +297,7 @@ def build_base(shape, variant=0):
         results = []
         for i in range(lo, hi):
             l = shape["links"][i]
-            srckeys = tuple(dotted(s["obj"]) if s["attr"] == "" else dotted(s["obj"]) + "." + s["attr"] for s in l["srcs"])
+            srckeys = tuple(source_key(shape, s) for s in l["srcs"])
             fn = None
             if l["fn"]:
                 def fn(*args, _i=i + 1):
@@ -318,7 +369,7 @@ def instantiate_once(p, argv, shape, ob):
     for ev in GEN.LOG:
         if ev[0] == "new":
             # (parameters that belong to links which are not added yet -- first call of a history -- are left out)
-            mine = {l["param"] for l in shape["links"] if tuple(l["tobj"]) == tuple(ev[1])}
+            mine = {l["param"] for l in shape["links"] if feeds(shape, l, list(ev[1]))}
             ob["log"].append({"ev": "new", "obj": list(ev[1]), "kw": sorted([k, alpha_value(v, reg, zmap)] for k, v in ev[3].items() if k in mine)})
         else:
             ob["log"].append({"ev": "fn", "link": ev[1], "args": [alpha_value(x, reg, zmap) for x in ev[2]]})
@@ -398,6 +449,22 @@ def _shape_chunk(args):
     return out
 
 
+def _xshape_chunk(args):
+    """(round 4) shapes of MC_LinksExt: as _shape_chunk; a shape with nested links has no predicted log (its run is
+    validated against Ref by Trace_Links), only the outcome of the link_arguments calls is compared"""
+    cases, base = args
+    out = []
+    for ci, c in enumerate(cases):
+        ob = run_shape(c["shape"], variant=base + ci)
+        exp = canon_case(c)
+        acc = c["accepted"]
+        same = ob["add"] == exp["add"] and ob["ran"] == acc
+        if same and acc and c["feasible"] and not c["nested"]:
+            same = ob["failed"] == exp["failed"] and (exp["failed"] or (ob["log"] == exp["log"] and sorted(ob["final"]) == exp["final"]))
+        out.append((base + ci, same, ob))
+    return out
+
+
 def canon_log(log):
     out = []
     for ev in log:
@@ -420,12 +487,118 @@ def _hist_chunk(args):
     return out
 
 
+def with_sig(shape):
+    """the shape as Trace_Links gets it: `sig` = its objects with siblings in signature order (gamma generates the
+    class-typed parameters of an object in alphabetical order).  A shape emitted by TLC that already carries a sig must
+    agree with gamma's order, otherwise the prediction is about another parser."""
+    canon = sorted(shape["objs"])
+    if "sig" in shape:
+        sibs = [q for q in shape["sig"] if len(q) >= 2 and q[-2] == "init_args"]
+        for a in sibs:
+            for b in sibs:
+                if a[:-1] == b[:-1] and a[-1] < b[-1] and shape["sig"].index(a) > shape["sig"].index(b):
+                    machinery_failure(PID, f"sig of an emitted shape disagrees with the generated signature order: {shape['sig']}")
+        return shape
+    return dict(shape, sig=canon)
+
+
 def shape_key(shape) -> str:
     return json.dumps(shape, sort_keys=True)
 
 
 # -------------------------------------------------------------------- random shapes beyond the bounds of MC_LinksInst
+def random_shape_ext(rnd):
+    """(round 4) larger mixed shapes: 5..6 top-level components of every kind (class group, class argument, List[Class]
+    argument, Optional argument that is None, group with class-typed parameter and nested class, class argument with
+    nested classes), link sources that are nested objects, three nested target levels, nested links"""
+    D = lambda dest, kind, cp=(): {"dest": dest, "kind": kind, "cparams": list(cp)}
+    gs = lambda: rnd.choice(["group", "sub"])
+    fam = rnd.choice(["flat", "flat", "mixed", "mixed", "deep3", "nest"])
+    plains = []
+    nested_links = False
+    if fam == "flat":
+        n = rnd.randint(5, 6)
+        decl, objs = [], []
+        for i in range(n):
+            nm = "abcdef"[i]
+            key = ["n", nm] if rnd.random() < 0.2 else [nm]
+            k = rnd.random()
+            if k < 0.2:
+                items = ["i1", "i2", "i3"][: rnd.randint(1, 3)]
+                decl.append(D(key, "list", items))
+                objs += [key + [it] for it in items]
+            elif k < 0.4:
+                decl.append(D(key, "opt"))
+            else:
+                decl.append(D(key, gs()))
+                objs.append(key)
+        if rnd.random() < 0.3:
+            plains = [["t1"], ["t2"]]
+    elif fam == "mixed":
+        decl = [D(["s"], gs()), D(["r"], "group", ["child"]), D(["m"], "sub"), D(["o"], gs()), D(["x"], rnd.choice(["group", "sub", "opt"]))]
+        objs = [["s"], ["r"], ["m"], ["o"], ["r", "child"], ["r", "child", "init_args", "grand"], ["m", "init_args", "enc"], ["m", "init_args", "enc", "init_args", "inner"]]
+        if decl[4]["kind"] != "opt":
+            objs.append(["x"])
+        if rnd.random() < 0.5:
+            decl.append(D(["l"], "list", ["i1", "i2"]))
+            objs += [["l", "i1"], ["l", "i2"]]
+    elif fam == "deep3":
+        decl = [D(["s1"], gs()), D(["s2"], gs()), D(["s3"], gs()), D(["r"], "group", ["child"]), D(["o"], gs())]
+        objs = [["s1"], ["s2"], ["s3"], ["r"], ["o"], ["r", "child"], ["r", "child", "init_args", "grand"]]
+    else:  # nested links inside the class argument m (no class group with class-typed parameters here)
+        nested_links = True
+        decl = [D(["s"], gs()), D(["m"], "sub"), D(["o"], gs()), D(["b"], gs()), D(["c"], rnd.choice(["group", "sub", "opt"]))]
+        objs = [["s"], ["m"], ["o"], ["b"], ["m", "init_args", "dec"], ["m", "init_args", "enc"]]
+        if decl[4]["kind"] != "opt":
+            objs.append(["c"])
+    rnd.shuffle(decl)
+    shape0 = {"decl": decl}
+    comps = comp_dests(shape0)
+    lists = list_dests(shape0)
+    items = [o for o in objs if o[:-1] in lists]
+    owner = lambda o: max((c for c in comps if o[: len(c)] == c), key=len)
+    nested_objs = [o for o in objs if o not in comps and o not in items]
+    targets = [o for o in objs if o not in items] + lists + [d["dest"] for d in decl if d["kind"] == "opt"] + plains
+    perm = comps[:]
+    rnd.shuffle(perm)
+    m = rnd.randint(2, 6)
+    acyclic = rnd.random() < 0.8
+    edges, used_plain = [], set()
+    for _ in range(3 * m):
+        if len(edges) >= m:
+            break
+        s = rnd.choice(nested_objs) if nested_objs and rnd.random() < 0.3 else rnd.choice([c for c in comps if c not in lists])
+        t = rnd.choice(targets)
+        if s == t or (s, t) in edges or (len(t) > len(s) and t[: len(s)] == s):
+            continue
+        if t in plains:
+            if tuple(t) in used_plain:
+                continue
+            used_plain.add(tuple(t))
+        else:
+            is_nested = s not in comps and owner(s) == owner(t) and t not in comps or (s not in comps and t == owner(s))
+            if is_nested and not (nested_links and t != owner(s)):
+                continue  # nested links only in the "nest" family, and not into a parameter of the argument itself
+            if acyclic and not is_nested and perm.index(owner(s)) >= perm.index(owner(t)):
+                continue
+        edges.append((s, t))
+    links = []
+    if rnd.random() < 0.2:
+        by_t = {}
+        for s, t in edges:
+            by_t.setdefault(tuple(t), []).append(s)
+        for t, ss in by_t.items():
+            links.append({"srcs": [{"obj": s, "attr": rnd.choice(["", "u", "v"])} for s in ss], "tobj": list(t), "param": "pm", "fn": True})
+    else:
+        for s, t in edges:
+            links.append({"srcs": [{"obj": s, "attr": rnd.choice(["", "u", "v"])}], "tobj": t, "param": "p" + "_".join(s), "fn": rnd.random() < 0.5})
+    # a nested link needs an attribute of the nested source (a whole nested object is one name below m: also fine)
+    return {"decl": decl, "objs": objs, "plains": plains, "links": links}
+
+
 def random_shape(rnd):
+    if rnd.random() < 0.4:
+        return random_shape_ext(rnd)
     r = rnd.random()
     plains = []
     if r < 0.55:  # flat, 4..6 components, some under a shared (non-component) nested key
@@ -506,7 +679,7 @@ def run_mc(module, cfg, workers=None, timeout=3000):
     a shared machine: out of memory, killed JVM, time-out) is repeated once; what happened is kept for the evidence"""
     mc = None
     for attempt in (1, 2):
-        mc = tlc.run(module, cfg, workers=workers or WORKERS, timeout=timeout, heap=HEAP)
+        mc = tlc.run(module, cfg, workers=workers or WORKERS, timeout=timeout, heap=HEAP, env=JAVA_ENV)
         if mc.violated or not mc.errors:
             return mc
         RETRIED.append({"run": cfg, "attempt": attempt, "rc": mc.rc, "errors": mc.errors[:3], "tail": mc.stdout[-600:]})
@@ -516,12 +689,16 @@ def run_mc(module, cfg, workers=None, timeout=3000):
 def run_trace(module, path, expect):
     """one trace-validation run; a run that TLC did not complete (resource trouble on a shared machine) is retried once"""
     tr = None
-    for attempt in (1, 2):
-        tr = tlc.run(module, module, workers=WORKERS, env={"TRACE_FILE": str(path)}, timeout=2400, heap=HEAP)
+    for attempt in (1, 2, 3, 4):
+        tr = tlc.run(module, module, workers=WORKERS, env=dict(JAVA_ENV, TRACE_FILE=str(path)), timeout=2400, heap=HEAP)
         if not tr.errors and tr.distinct == expect:
             return tr
     i = tr.stdout.find("Error")
-    machinery_failure(PID, f"trace validation failed twice (distinct={tr.distinct}, expected {expect}, errors={tr.errors[:5]}):\n"
+    if os.environ.get("C16_DEBUG_DIR"):
+        import shutil
+        open(os.path.join(os.environ["C16_DEBUG_DIR"], "trace_fail.out"), "w").write(tr.stdout)
+        shutil.copy(str(path), os.path.join(os.environ["C16_DEBUG_DIR"], "trace_fail.json"))
+    machinery_failure(PID, f"trace validation failed four times (distinct={tr.distinct}, expected {expect}, errors={tr.errors[:5]}):\n"
                       + (tr.stdout[max(0, i - 200):i + 2500] if i >= 0 else tr.stdout[-3000:]))
 
 
@@ -551,7 +728,8 @@ def main(argv):
         "the generated classes log their constructor calls; objects and attribute tokens are identified by identity; a compute function returns a tagged tuple of its arguments (injective)",
         "components are class groups (add_class_arguments) and class-typed arguments (add_subclass_arguments / add_argument(type=Class), alternating); per-parameter type-hint actions that construct nothing are not modelled",
         "links whose source object contains the target (a constructor argument of the source) and other link sets that are only cyclic through constructor arguments are outside the property as stated: only acceptance/rejection of the link is compared there",
-        "links between a source and a target inside the same class argument (nested links, applied by the type hint) and sub-commands are not covered",
+        "links between a source and a target inside the same class argument (nested links, applied by the type hint): acceptance / rejection is predicted by the transcription, the run is validated against the Ref clauses only (no transcription of the inner parser); sub-commands are not covered",
+        "every generated object has the attributes u, v and one attribute per class-typed parameter holding the object it was given; a List[Class] argument gets one generated subclass per item; an Optional[Class] argument that is None is declared with default None (and given as null every other case)",
         "the class of the exception of a rejected link is ValueError (named by the property); any other failure is compared as 'raises' only",
     ]
     pool = mp.get_context("fork").Pool(NPROC)
@@ -559,6 +737,10 @@ def main(argv):
     clock = common.Timer()
     timing = rep.extra.setdefault("timing_s", {})
     try:
+        # (round 4) the instance of the extended universe runs while part A is checked and replayed
+        xbox = {}
+        xth = threading.Thread(target=lambda: xbox.setdefault("r", run_mc("MC_LinksExt", f"MC_LinksExt_{tier}", workers=max(2, WORKERS // 2))))
+        xth.start()
         # ------------------------------------------------------------------ part A: MC + replay
         graph_cfgs = ["MC_Links_quick", "MC_Links_loops", "MC_Links_seq"] if tier == "quick" else ["MC_Links_loops4", "MC_Links_seq", "MC_Links_thorough"]
         n_graph_cases = 0
@@ -705,8 +887,60 @@ def main(argv):
                         "python": "build_base(shape); add_links(0, split); parse_args; instantiate_classes; add_links(split, n); parse_args; instantiate_classes"})
         timing["histories"] = clock.s()
 
+        # ------------------------------------------------------------------ part B: the extended universe (round 4)
+        xth.join()
+        mcx = xbox.get("r")
+        xcfg = f"MC_LinksExt_{tier}"
+        if mcx is None:
+            machinery_failure(PID, "the TLC run of MC_LinksExt did not finish")
+        rep.add_tlc(xcfg, mcx)
+        xcases = []
+        if mcx.errors:
+            if mcx.violated:
+                rep.violation("model:ext:" + ",".join(mcx.violated), f"TLC: {mcx.violated} violated in {xcfg}: the transcription does not refine Ref outside the recorded deviations "
+                              "(List / Optional components, nested sources, nested links, three nested target levels)", {"tlc_errors": mcx.errors, "counterexample": mcx.cex[:4000]})
+            else:
+                machinery_failure(PID, f"TLC failed on {xcfg}:\n" + mcx.stdout[-3000:])
+        else:
+            xcases = [p for p in mcx.printed if isinstance(p, dict) and "shape" in p and "leaf" in p]
+            xseeds = [p for p in mcx.printed if isinstance(p, list) and p and p[0] == "XSEEDS"]
+            if not xseeds or len(xcases) != mcx.distinct - xseeds[0][1]:
+                machinery_failure(PID, f"{xcfg}: {len(xcases)} emitted shapes for {mcx.distinct} distinct states (seeds {xseeds})")
+            xcases.sort(key=lambda c: shape_key(c["shape"]))
+            mcx.printed, mcx.stdout = [], ""
+        n_xsame = 0
+        chunks = [(xcases[i:i + 100], i) for i in range(0, len(xcases), 100)]
+        for res in pool.imap_unordered(_xshape_chunk, chunks):
+            for idx, same, ob in res:
+                c = xcases[idx]
+                if same and not (c["dev"] or c["leaf"] or c["nested"] or c["owner"] or c["cyc"]):
+                    n_xsame += 1
+                else:
+                    inst_obs.append((c["shape"], ob, "ext"))
+        for c in xcases:
+            if len(c["shape"]["links"]) >= 2 and c["accepted"]:
+                rep.note_nontrivial(shape_key(c["shape"]))
+        kinds_of = lambda c: {d["kind"] for d in c["shape"]["decl"]}
+        rep.extra["ext_shapes"] = {
+            "emitted": len(xcases), "identical_to_prediction": n_xsame,
+            "with_list_target": sum(1 for c in xcases if any(l["tobj"] in list_dests(c["shape"]) for l in c["shape"]["links"])),
+            "with_none_component_linked": sum(1 for c in xcases if "opt" in kinds_of(c)),
+            "with_nested_source": sum(1 for c in xcases if any(s["obj"] not in comp_dests(c["shape"]) for l in c["shape"]["links"] for s in l["srcs"])),
+            "three_target_levels": sum(1 for c in xcases if any(d["dest"] == ["s3"] for d in c["shape"]["decl"])),
+            "three_target_levels_misordered": sum(1 for c in xcases if any(d["dest"] == ["s3"] for d in c["shape"]["decl"]) and c["dev"]),
+            "with_nested_links_accepted": sum(1 for c in xcases if c["nested"] and c["accepted"]),
+            "deviation_leaf": sum(1 for c in xcases if c["leaf"] and c["accepted"] and c["feasible"]),
+            "deviation_owner_targeted": sum(1 for c in xcases if c["owner"]),
+            "deviation_nested_cycle": sum(1 for c in xcases if c["cyc"]),
+            "rejected": sum(1 for c in xcases if not c["accepted"]),
+        }
+        for c in [x for x in xcases if any(d["kind"] == "list" for d in x["shape"]["decl"]) and len(x["shape"]["links"]) >= 2 and x["accepted"]][:1]:
+            rep.sample({"shape": c["shape"], "spec_add": c["add"], "spec_plan": c["plan"], "spec_log": c["log"],
+                        "python": "build_parser(shape): List[Class] / Optional[Class]=None arguments, link_arguments(.., apply_on='instantiate'); parse_args; instantiate_classes"})
+        timing["ext"] = clock.s()
+
         # ------------------------------------------------------------------ part B: random shapes beyond the bounds
-        nrand = 300 if tier == "quick" else 4000
+        nrand = 400 if tier == "quick" else 5000
         shapes = [random_shape(rnd) for _ in range(nrand)]
         chunks = [(shapes[i:i + 100], i) for i in range(0, len(shapes), 100)]
         rand_res = []
@@ -734,7 +968,7 @@ def main(argv):
             part = inst_obs[c * CH:(c + 1) * CH]
             gpart = graph_obs if c == 0 else []
             f = tmp / f"trace{c}.json"
-            f.write_text(json.dumps({"graphs": [{"es": g["es"], "raised": g["raised"], "order": g["order"]} for g in gpart], "insts": [{"shape": sh, "add": ob["add"], "ran": ob["ran"], "failed": ob["failed"], "log": ob["log"], "final": ob["final"]}
+            f.write_text(json.dumps({"graphs": [{"es": g["es"], "raised": g["raised"], "order": g["order"]} for g in gpart], "insts": [{"shape": with_sig(sh), "add": ob["add"], "ran": ob["ran"], "failed": ob["failed"], "log": ob["log"], "final": ob["final"]}
                                                                 for sh, ob, _o in part]}))
             tr = run_trace("Trace_Links", f, len(part) + len(gpart))
             rep.add_tlc(f"Trace_Links[{c}]", tr)
@@ -744,7 +978,7 @@ def main(argv):
             f.unlink()
 
         timing["trace_validation"] = clock.s()
-        rep.traces = n_graph_cases + len(cases) + 2 * len(hcases) + len(graph_obs) + nrand
+        rep.traces = n_graph_cases + len(cases) + len(xcases) + 2 * len(hcases) + len(graph_obs) + nrand
         rep.evaluations = rep.traces
         rep.rule = ("cases = (edge sequence) for the graph part, (parser shape) for the instantiation part; non-trivial & distinct = distinct graphs "
                     "with >= 2 edges, distinct accepted shapes with >= 2 links, distinct random graphs / shapes")
@@ -782,6 +1016,12 @@ def main(argv):
                     rep.violation("nested-target-misordered:" + cl[15:], "a link into an object nested inside another component is applied before its source exists", case)
                 elif cl == "ref-dev-source-raises":
                     rep.violation("nested-source-unreachable:raises", "a class-typed parameter of a class group used as link source is looked up after the group was instantiated", case)
+                elif cl == "ref-dev-leaf":
+                    rep.violation("nested-attr-source:leaf-of-owner", "a link source two or more names below its action (m.enc.u) delivers the attribute of the enclosing argument with the last name (m.u), or nothing", case)
+                elif cl == "ref-dev-owner-targeted":
+                    rep.violation("nested-link-owner-targeted:rejected", "an acyclic link set with a link inside one class argument is rejected as cyclic because the argument is itself a link target", case)
+                elif cl == "ref-dev-nested-cycle":
+                    rep.violation(f"nested-cycle-accepted:{len(ob['add'])}links", "a cycle of links through an object nested inside a component is not rejected when the link is added", case)
                 elif cl == "ref-dev-other":
                     rep.violation("nested-other:" + ("raises" if ob["failed"] else "log"), "nested link source/target: neither the property nor a recorded deviation", case)
                 elif cl == "ref-add":
